@@ -5,10 +5,12 @@ package main
 import (
 	"fmt"
 	"go/constant"
+	"go/token"
 	"go/types"
 	"math/big"
 	"os"
 	"regexp"
+	"sort"
 	"strconv"
 	"strings"
 
@@ -414,6 +416,15 @@ func (v *Verifier) evalObject(env *Env, o types.Object) Val {
 func (v *Verifier) localName(env *Env, name string) (Val, bool) {
 	fr := env.fr
 	refs := fr.dbgNames[name]
+	if len(refs) == 0 {
+		// the name is not a local variable of the function as it is now: if it was one when the name hints were
+		// recorded and the function still declares the same number of locals with the same types in the same order,
+		// the variable at that position is meant (a renamed local)
+		if alt := v.renamedLocal(fr, name); alt != "" {
+			name = alt
+			refs = fr.dbgNames[name]
+		}
+	}
 	// range-over-slice index: the source variable is (hidden phi + 1); at the loop head it denotes the next index
 	for _, d := range refs {
 		if bo, ok := d.X.(*ssa.BinOp); ok && bo.Block() == env.at {
@@ -1228,4 +1239,62 @@ func (v *Verifier) libAxiomsFor(env *Env, sf *SpecFunc) {
 		v.ctx.assert(t, "library axiom "+ax.Name+": "+ax.Text)
 		v.axiomsUsed["lib."+ax.Name] = true
 	}
+}
+
+// localOrder: the local variables (incl. parameters) the function mentions, in order of declaration.
+func (fr *Frame) localOrder() [][2]string {
+	type ov struct {
+		pos  token.Pos
+		name string
+		typ  string
+	}
+	seen := map[types.Object]bool{}
+	var vs []ov
+	for _, refs := range fr.dbgNames {
+		for _, d := range refs {
+			o := d.Object()
+			if o == nil || seen[o] {
+				continue
+			}
+			if tv, ok := o.(*types.Var); !ok || tv.IsField() || tv.Pkg() == nil || tv.Parent() == nil || tv.Parent() == tv.Pkg().Scope() {
+				continue // only variables declared inside the function
+			}
+			seen[o] = true
+			vs = append(vs, ov{o.Pos(), o.Name(), types.TypeString(o.Type(), nil)})
+		}
+	}
+	sort.Slice(vs, func(i, j int) bool { return vs[i].pos < vs[j].pos })
+	var out [][2]string
+	for _, x := range vs {
+		out = append(out, [2]string{x.name, x.typ})
+	}
+	return out
+}
+
+func (v *Verifier) renamedLocal(fr *Frame, name string) string {
+	if v.nameHints == nil {
+		return ""
+	}
+	old := v.nameHints[funcKey(fr.fn)]
+	if old == nil {
+		return ""
+	}
+	cur := fr.localOrder()
+	if len(cur) != len(old) {
+		return ""
+	}
+	idx := -1
+	for i := range old {
+		if old[i][1] != cur[i][1] {
+			return ""
+		}
+		if old[i][0] == name {
+			idx = i
+		}
+	}
+	if idx < 0 || cur[idx][0] == name {
+		return ""
+	}
+	v.note(fr.objPfx + ": contract name " + name + " resolved to the renamed local " + cur[idx][0])
+	return cur[idx][0]
 }
